@@ -243,6 +243,15 @@ theorem scopeSpecsForContractSpec_exact (B : Addr → Addr) (H : String → Name
   · intro hx
     exact ⟨c, id, ⟨h.mpr hx, rfl⟩, rfl⟩
 
+/-- In particular, whatever the MULTIPLICITIES (nothing rejects a contract-specification list
+that names an id more than once, and a rewrite may list it more or fewer times): a contract
+specification the stored scope specification lists at least once is in the
+by-contract-specification lookup after every history … -/
+theorem scopeSpecsForContractSpec_keeps_listed (B : Addr → Addr) (H : String → NameKey) (ops : List Op)
+    (sp : ScopeSpec) (hsp : sp ∈ (run B H State.empty ops).scopeSpecs) (c : UUID) (hc : c ∈ sp.cspecs) :
+    sp.id ∈ scopeSpecsForContractSpec (run B H State.empty ops) c :=
+  (scopeSpecsForContractSpec_exact B H ops c sp.id).mpr ⟨sp, hsp, rfl, hc⟩
+
 /-- The by-owner lookup of an ACCOUNT lists exactly the contract specifications one of whose
 stored owner TEXTS denotes the account — after every history, whatever the spellings. -/
 theorem contractSpecsForOwner_exact (B : Addr → Addr) (H : String → NameKey) (ops : List Op) (acct : Addr) (id : UUID) :
@@ -300,6 +309,14 @@ theorem contractSpec_in_use_not_removed (B : Addr → Addr) (st st' : State) (id
       simp only [isContractSpecUsed, Bool.or_eq_true, List.any_eq_true, decide_eq_true_eq, not_or,
         not_exists, not_and] at hu
       exact hu.1 _ this rfl
+
+/-- … and on every reachable state a contract specification that a stored scope specification
+lists (once or several times) cannot be deleted. -/
+theorem listed_contractSpec_not_removed (B : Addr → Addr) (H : String → NameKey) (ops : List Op)
+    (sp : ScopeSpec) (hsp : sp ∈ (run B H State.empty ops).scopeSpecs) (c : UUID) (hc : c ∈ sp.cspecs)
+    (st' : State) : deleteContractSpecification B (run B H State.empty ops) c ≠ .ok st' := by
+  intro hr
+  exact contractSpec_in_use_not_removed B _ st' c (refInv_reachable B H ops).1 hr sp hsp hc
 
 /-! ### removing a session's last record removes the session -/
 
@@ -423,5 +440,21 @@ example : scopesForAddress (run witnessB id State.empty (spellingHistory.take 4)
     ((run witnessB id State.empty (spellingHistory.take 5)).scopes.map (·.owners)) = [["A"]] ∧
     scopesForAddress (run witnessB id State.empty spellingHistory) "A" = ["s1"] ∧
     ((run witnessB id State.empty spellingHistory).scopes.map (·.owners)) = [["A^"]] := by decide
+
+/-- repeated entries: a scope specification that lists `c1` twice is rewritten listing it once
+(other order, an owner listed twice): `c1` stays in the lookup and cannot be deleted -/
+def multiplicityHistory : List Op := [
+  .writeContractSpec { id := "c1", owners := ["A"] },
+  .writeContractSpec { id := "c2", owners := ["A", "A"] },
+  .writeScopeSpec { id := "p1", owners := ["A"], cspecs := ["c1", "c1", "c2"] },
+  .writeScopeSpec { id := "p1", owners := ["A", "A"], cspecs := ["c2", "c1"] },
+  .deleteContractSpec "c1" ]
+
+example : scopeSpecsForContractSpec (run id id State.empty (multiplicityHistory.take 3)) "c1" = ["p1"] ∧
+    (run id id State.empty (multiplicityHistory.take 4)).scopeSpecs.map (·.cspecs) = [["c2", "c1"]] ∧
+    scopeSpecsForContractSpec (run id id State.empty (multiplicityHistory.take 4)) "c1" = ["p1"] ∧
+    scopeSpecsForContractSpec (run id id State.empty (multiplicityHistory.take 4)) "c2" = ["p1"] ∧
+    scopeSpecsForOwner (run id id State.empty (multiplicityHistory.take 4)) "A" = ["p1"] ∧
+    "c1" ∈ (run id id State.empty multiplicityHistory).contractSpecs.map (·.id) := by decide
 
 end PvProofs.C14
